@@ -8,7 +8,7 @@
 // Also covered (each goes to the model as operation lines and has an oracle of its own):
 //   * normalisation with one factor per TOF bin (BinNormalisationFromProjData on TOF data, a TOF efficiency table, chains): the
 //     is_TOF_only_norm -> use_tofsens switch of set_up (`tofsens` lines) and the TOF sensitivity with per-TOF-bin efficiencies;
-//   * set_max_timing_pos_num_to_process below the maximum of the data (the quantities of the requested TOF range);
+//   * set_max_timing_pos_num_to_process below the maximum of the data (all quantities over the requested TOF range, `tofrange` lines);
 //   * with a prior: the full-data compute_objective_function / compute_gradient / accumulate_Hessian_times_input /
 //     add_multiplication_with_approximate_Hessian and all public *_without_penalty functions of the object that holds the prior;
 //   * (subset) sensitivities read from files written by an identical object, and supplied by set_subset_sensitivity_sptr;
@@ -778,6 +778,19 @@ run_case(Out& o, Case& k, vh::Rng& rng, int case_id, bool thorough, std::map<std
       o.fail("max_segment_num_to_process larger than the data accepted by set_up " + c.str());
     o.line("segrange " + std::to_string(k.g.pdi->get_max_segment_num() + 1) + " " + std::to_string(k.g.pdi->get_max_segment_num()),
            ok3 ? std::to_string(obj->get_max_segment_num_to_process()) : std::string("err"));
+    {
+      // a TOF range larger than the data is refused, too
+      Holder ob(1);
+      configure(*ob, k, 1);
+      ob->set_max_timing_pos_num_to_process(k.tofmax_data + 1);
+      Succeeded s4 = Succeeded::yes;
+      const bool ok4 = guarded([&] { s4 = ob->set_up(k.image); }) && s4 == Succeeded::yes;
+      ++o.checks;
+      if (ok4)
+        o.fail("max_timing_pos_num_to_process larger than the data accepted by set_up " + c.str());
+      o.line("tofrange " + std::to_string(k.tofmax_data + 1) + " " + std::to_string(k.tofmax_data),
+             ok4 ? std::to_string(ob->get_max_timing_pos_num_to_process()) : std::string("err"));
+    }
     ++hist["malformed-use"];
   }
   // "every legal number of subsets": set_up refuses exactly the subset numbers whose subsets do not contain the same number of
@@ -846,30 +859,28 @@ run_case(Out& o, Case& k, vh::Rng& rng, int case_id, bool thorough, std::map<std
         }
       ++hist["setup-ok"];
       // ---- what set_up made of the segment range, the TOF range and the TOF sensitivity switch
-      const int tofmax_eff = obj->get_max_timing_pos_num_to_process();
+      const int tofmax_obs = obj->get_max_timing_pos_num_to_process();
       const bool tofsens_obs = obj->get_use_tofsens();
       const bool same_proj = !k.tof || tofsens_obs;
+      const bool restricted = tofmax_req < k.tofmax_data;
       o.line("segrange " + std::to_string(c.maxseg) + " " + std::to_string(k.g.pdi->get_max_segment_num()),
              std::to_string(obj->get_max_segment_num_to_process()));
-      if (c.maxtof < 0)
-        {
-          // (PoissonLogLikelihoodWithLinearModelForMeanAndProjData.cxx:646) TOF normalisation data switch TOF sensitivities on
-          o.line(std::string("tofsens 1 ") + (c.use_tofsens ? "1" : "0") + " " + (k.tof ? "1" : "0") + k.norm_links, tofsens_obs ? "1" : "0");
-          ++o.checks;
-          if (same_proj != k.same_proj)
-            o.fail(std::string("sensitivity computed with the ") + (same_proj ? "TOF" : "non-TOF") + " projector, expected the other one: " + c.str());
-        }
-      ++o.checks;
-      if (tofmax_eff != tofmax_req)
-        o.candidate("tofrange:set_max_timing_pos_num_to_process-ignored",
-                    "set_max_timing_pos_num_to_process(" + std::to_string(c.maxtof) + ") before set_up has no effect: after set_up "
-                    "get_max_timing_pos_num_to_process() = " + std::to_string(tofmax_eff) + " (set_up_before_sensitivity overwrites it with the maximum of "
-                    "the data) and value, gradient and sensitivity are those of all TOF bins, not of the requested TOF range; " + c.str() + " n=" + std::to_string(n));
+      o.line("tofrange " + std::to_string(c.maxtof) + " " + std::to_string(k.tofmax_data), std::to_string(tofmax_obs));
+      // (PoissonLogLikelihoodWithLinearModelForMeanAndProjData.cxx:653-671) TOF normalisation data and a restricted TOF range switch TOF sensitivities on
+      o.line(std::string("tofsens 1 ") + (c.use_tofsens ? "1" : "0") + " " + (k.tof ? "1" : "0") + " " + (restricted ? "1" : "0") + k.norm_links,
+             tofsens_obs ? "1" : "0");
+      o.checks += 3;
+      if (same_proj != (k.same_proj || restricted))
+        o.fail(std::string("sensitivity computed with the ") + (same_proj ? "TOF" : "non-TOF") + " projector, expected the other one: " + c.str());
+      if (tofmax_obs != tofmax_req)
+        o.fail("set_max_timing_pos_num_to_process(" + std::to_string(c.maxtof) + ") before set_up: after set_up get_max_timing_pos_num_to_process() = "
+               + std::to_string(tofmax_obs) + ", expected " + std::to_string(tofmax_req) + "; " + c.str() + " n=" + std::to_string(n));
       else if (c.maxtof >= 0)
-        ++hist["tofrange-restricted-honoured"];
-      if (!same_proj && tofmax_eff < k.tofmax_data)
-        o.fail("TOF range restricted to " + std::to_string(tofmax_eff) + " but the sensitivity is computed with the non-TOF projector (all TOF bins): " + c.str());
-      // The remaining comparisons use the TOF range the object reports, so that anything else than "the range is the one reported" is a plain failure.
+        ++hist["tofrange-restricted"];
+      if (!same_proj && restricted)
+        o.fail("TOF range restricted to " + std::to_string(tofmax_req) + " but the sensitivity is computed with the non-TOF projector (all TOF bins): " + c.str());
+      // All comparisons (model lines and oracle) are for the requested TOF range.
+      const int tofmax_eff = tofmax_req;
       // all bins of the data set within the segment and TOF range (for the "sum over subsets = full" clause), independent of the subset scheme
       const Geo& gs = same_proj ? k.g : k.gs;
       const int stofmax = same_proj ? tofmax_eff : 0;
@@ -909,7 +920,6 @@ run_case(Out& o, Case& k, vh::Rng& rng, int case_id, bool thorough, std::map<std
             vg_count[id]++;
           const std::string tail = ids_str(vg);
           const std::vector<int> tb_bins = bins_of(k.g, vg, c.zero);
-          const std::vector<int> tb_bins_nozero = bins_of(k.g, vg, false);
           const std::vector<int> tb_sbins = bins_of(gs, svg, c.zero);
           std::string ctx = c.str() + " n=" + std::to_string(n) + " subset=" + std::to_string(s);
 
@@ -1033,35 +1043,10 @@ run_case(Out& o, Case& k, vh::Rng& rng, int case_id, bool thorough, std::map<std
                 for (int i = 0; i < nvox; ++i)
                   h0[i] = hessv[i] - c0, th.m[i] += std::fabs(c0);
                 int bad = cmp_vec(h0, th.v, th.m, ORACLE_REL);
+                // (the bins of the data: with zero_seg0_end_planes the end planes of segment 0 are excluded, as for value and gradient)
                 if (bad >= 0)
-                  {
-                    // The one listed class of failing input: zero_seg0_end_planes = true, where the function is known not to clear the end
-                    // planes of segment 0.  Only a result that equals the textbook expression over ALL bins of the subset's viewgrams (end
-                    // planes included, every TOF bin with its own data) is that class; anything else is a plain failure.
-                    bool listed = false;
-                    if (c.zero)
-                      {
-                        Textbook tA = textbook(Q_HESS, k.g, tb_bins_nozero, c.additive, k.lam, k.x, nvox);
-                        for (int i = 0; i < nvox; ++i)
-                          tA.m[i] += std::fabs(c0);
-                        if (!tA.regular)
-                          {
-                            listed = true; // the bins the function really reads are not all in the regular region: no verdict
-                            ++hist["oracle-hessian-irregular"];
-                          }
-                        else if (cmp_vec(h0, tA.v, tA.m, ORACLE_REL) < 0)
-                          {
-                            listed = true;
-                            o.candidate("hessian:ignores-zero-seg0-end-planes",
-                                        "accumulate_sub_Hessian_times_input with zero_seg0_end_planes=true includes the end planes of segment 0 "
-                                        "(value and gradient exclude them): result equals -P^T diag(y/ybar^2) P x over ALL bins; first seen at voxel "
-                                            + std::to_string(bad) + " impl=" + vh::hex(h0[bad]) + " textbook=" + vh::hex(th.v[bad]) + " " + ctx);
-                          }
-                      }
-                    if (!listed)
-                      o.fail("Hessian times input differs from -P^T diag(y/(P lambda + a)^2) P x at voxel " + std::to_string(bad) + ": impl="
-                             + vh::hex(h0[bad]) + " textbook=" + vh::hex(th.v[bad]) + " " + ctx);
-                  }
+                  o.fail("Hessian times input differs from -P^T diag(y/(P lambda + a)^2) P x at voxel " + std::to_string(bad) + ": impl="
+                         + vh::hex(h0[bad]) + " textbook=" + vh::hex(th.v[bad]) + " " + ctx);
               }
             else
               ++hist["oracle-hessian-irregular"];
@@ -1158,14 +1143,8 @@ run_case(Out& o, Case& k, vh::Rng& rng, int case_id, bool thorough, std::map<std
             int bad = cmp_vec(sg, tg.v, tg.m, 2 * ORACLE_REL);
             if (bad >= 0)
               o.fail("sum over subsets of the gradient != full-data gradient at voxel " + std::to_string(bad) + " " + ctx);
-            // (with zero_seg0_end_planes the subset results are known to contain the end planes: hessian:ignores-zero-seg0-end-planes, reported
-            // per subset above; the sum is then compared with the textbook expression over all bins, end planes included)
             {
-              std::vector<int> all_bins_h;
-              for (std::size_t i = 0; i < k.g.bins.size(); ++i)
-                if (std::abs(k.g.bins[i].seg) <= k.maxseg_eff && std::abs(k.g.bins[i].tof) <= tofmax_eff)
-                  all_bins_h.push_back(static_cast<int>(i));
-              Textbook thh = c.zero ? textbook(Q_HESS, k.g, all_bins_h, c.additive, k.lam, k.x, nvox) : th;
+              const Textbook& thh = th;
               if (thh.regular)
                 {
                   ++hist["oracle-sum-over-subsets-hessian"];
@@ -1314,7 +1293,7 @@ run_penalised(Out& o, Case& k, vh::Rng& rng, std::map<std::string, long>& hist)
       // every result goes to the model (which recomputes it from the bins of the viewgrams and the prior's term) and, as oracle,
       // is compared with the object without prior: unpenalised = that object's result bit for bit, penalised full = that result - prior term
       {
-        const int tofmax_eff = B->get_max_timing_pos_num_to_process();
+        const int tofmax_eff = c.maxtof >= 0 ? c.maxtof : k.tofmax_data; // the requested TOF range
         const DataSymmetriesForViewSegmentNumbers& sym = *k.pair->get_symmetries_used();
         std::vector<int> allvg;
         std::string tail_split;
@@ -1527,8 +1506,10 @@ run_orders(Out& o, Case& k, vh::Rng& rng, bool thorough, std::map<std::string, l
                   continue;
                 }
               if (!recompute && f == 0)
-                // set_up does not compute the sensitivities: TOF normalisation data leave the switch alone (cxx:638)
-                o.line(std::string("tofsens 0 ") + (c.use_tofsens ? "1" : "0") + " " + (k.tof ? "1" : "0") + k.norm_links, obj->get_use_tofsens() ? "1" : "0");
+                // set_up does not compute the sensitivities: TOF normalisation data and a restricted TOF range leave the switch alone (cxx:653)
+                o.line(std::string("tofsens 0 ") + (c.use_tofsens ? "1" : "0") + " " + (k.tof ? "1" : "0") + " "
+                           + (c.maxtof >= 0 && c.maxtof < k.tofmax_data ? "1" : "0") + k.norm_links,
+                       obj->get_use_tofsens() ? "1" : "0");
               // (the TOF sensitivity switch as the object has it after set_up: TOF normalisation data turn it on only when set_up computes the sensitivities)
               std::string op = std::string("hist ") + (!k.tof || obj->get_use_tofsens() ? "1" : "0") + " " + (recompute ? "1" : "0") + " " + std::to_string(n) + " "
                                + std::to_string(fill) + " " + std::to_string(fill);
@@ -1681,7 +1662,7 @@ run_loaded(Out& o, Case& k, vh::Rng& rng, const std::string& prefix, std::map<st
         }
       ++hist["sensitivity-from-file"];
       const bool same_proj = !k.tof || W->get_use_tofsens();
-      const int tofmax_eff = W->get_max_timing_pos_num_to_process();
+      const int tofmax_eff = c.maxtof >= 0 ? c.maxtof : k.tofmax_data; // the requested TOF range
       const Geo& gs = same_proj ? k.g : k.gs;
       const int stofmax = same_proj ? tofmax_eff : 0;
       const DataSymmetriesForViewSegmentNumbers& sym = *k.pair->get_symmetries_used();
